@@ -1,8 +1,8 @@
 """C14 - module discovery matches the import system, independent of listing order (spec/Finder.tla).
 
-TLC: Finder.tla over three families of layouts (top: precedence of the entries for the requested name
+TLC: Finder.tla over four families of layouts (top: precedence of the entries for the requested name
 over search paths 1, 2 and - through a .pth file - 3; sub: children of one regular package; ns: two
-namespace portions).  The listing order of every directory below the package is a variable chosen by TLC
+namespace portions; stubs: package + stubs-only package `pkg-stubs`, loaded with find_stubs_package=True).  The listing order of every directory below the package is a variable chosen by TLC
 (action ListDir); the run of the finder/loader is a sequence of actions transcribing the code; the
 reference is CPython's PathFinder/FileFinder + pkgutil (PyScan/PyResolve/PyWalk).  Invariants = the
 clauses of the property, proved on the clean domain (layouts without a known cause); the defect domain
@@ -43,19 +43,23 @@ TIERS = {
     "quick": {
         "top": dict(MAXFILES=0, PERMUTE="FALSE", TOPKINDS='{"absent","py","so","ns","init","initpyi","initboth","pkgutil","initpy"}', P3KINDS='{"py","init"}', PTHFORMS='{"abs","rel"}', DROP="{}"),
         "sub": dict(MAXFILES=3, PERMUTE="TRUE", TOPKINDS="{}", P3KINDS="{}", PTHFORMS='{"abs"}', DROP="{}"),
-        "ns": dict(MAXFILES=2, PERMUTE="TRUE", TOPKINDS="{}", P3KINDS="{}", PTHFORMS='{"abs"}', DROP='{"__init__.pyi", "y.py"}'),
+        "ns": dict(MAXFILES=2, PERMUTE="TRUE", TOPKINDS="{}", P3KINDS="{}", PTHFORMS='{"abs"}', DROP='{"y.py"}'),
+        "stubs": dict(MAXFILES=1, PERMUTE="FALSE", TOPKINDS='{"absent","py","init","ns"}', P3KINDS="{}", PTHFORMS='{"abs"}', DROP="{}"),
     },
     "thorough": {
         "top": dict(MAXFILES=0, PERMUTE="TRUE", TOPKINDS=ALL_TOP, P3KINDS='{"py","so","ns","init","initpyi","pkgutil"}', PTHFORMS='{"abs","rel"}', DROP="{}"),
         "sub": dict(MAXFILES=4, PERMUTE="TRUE", TOPKINDS="{}", P3KINDS="{}", PTHFORMS='{"abs"}', DROP="{}"),
         "ns": dict(MAXFILES=3, PERMUTE="TRUE", TOPKINDS="{}", P3KINDS="{}", PTHFORMS='{"abs"}', DROP="{}"),
+        "stubs": dict(MAXFILES=1, PERMUTE="TRUE", TOPKINDS='{"absent","py","init","initboth","ns"}', P3KINDS="{}", PTHFORMS='{"abs"}', DROP="{}"),
     },
 }
 EXPECTED_CAUSES = {
     "top": {"toplevel-so-ignored", "pth-relative-line", "init-pyi-is-package", "pkgutil-mixed-with-regular", "pkgutil-mixed-with-module"},
     "sub": {"init-pyi-is-package", "file-shadows-dir", "file-and-stubbed-package"},
     "ns": {"init-pyi-is-package", "ns-dup-module", "subpackage-split"},
+    "stubs": {"ns-dup-module", "stubs-namespace-misnamed"},
 }
+STUBS = "pkg-stubs"
 
 
 # ---------------------------------------------------------------------------------------------------
@@ -90,7 +94,8 @@ def rec(r: dict) -> dict:
 class PyRef:
     """The CPython reference of one layout, as computed by the spec (validated against the real CPython)."""
 
-    def __init__(self, py: dict):
+    def __init__(self, py: dict, find_stubs: bool = False):
+        self.find_stubs = find_stubs
         self.syspath = list(py["syspath"])
         self.top = rec(py["top"])
         self.walk = sorted((tuple(w["path"]), bool(w["ispkg"])) for w in py["walk"])
@@ -123,11 +128,30 @@ def stub_ok(ref: PyRef, n) -> bool:
     return dir_of(f) in parentlocs and (r["kind"] == "none" or (r["kind"] == "module" and is_so(r["file"])))
 
 
+def under_stubs(f) -> bool:
+    return bool(f[1]) and f[1][0] == STUBS
+
+
+def non_stubs(files: list) -> list:
+    return [f for f in files if not under_stubs(f)]
+
+
+def stub_pkg_ok(ref: PyRef, n) -> bool:
+    """find_stubs_package=True: a file of the stubs-only package at the mirrored position, no runtime module there."""
+    f = n["files"][0]
+    r = ref.imp_of(n["path"])
+    tail = tuple(n["path"][1:])
+    mirrored = f[1] == (STUBS, *tail, "__init__.pyi") or (len(tail) >= 1 and f[1] == (STUBS, *tail[:-1], tail[-1] + ".pyi"))
+    return ref.find_stubs and is_pyi(f) and mirrored and (r["kind"] == "none" or (r["kind"] == "module" and is_so(r["file"])))
+
+
 def node_ok(ref: PyRef, n) -> bool:
     r = ref.imp_of(n["path"])
     if n["ns"]:
-        return r["kind"] in ("namespace", "package") and (r["kind"] != "package" or r["ext"]) and set(n["files"]) <= set(r["locs"])
+        return r["kind"] in ("namespace", "package") and (r["kind"] != "package" or r["ext"]) and set(non_stubs(n["files"])) <= set(r["locs"])
     f = n["files"][0]
+    if under_stubs(f):
+        return stub_pkg_ok(ref, n)
     if is_pyi(f):
         return stub_ok(ref, n)
     return r["kind"] in ("module", "package") and (r["file"] == f or so_sibling(r, f)) and not (r["kind"] == "package" and r["ext"])
@@ -154,7 +178,7 @@ def evaluate(ref: PyRef, outcome: str, tree: list) -> dict:
     root = by_path.get(("pkg",))
     ok = True
     if r["kind"] == "none":
-        ok = outcome == "ModuleNotFoundError"
+        ok = outcome == "ModuleNotFoundError" or (ref.find_stubs and outcome == "ok" and root is not None and not root["ns"] and under_stubs(root["files"][0]))
     elif r["kind"] == "module":
         if is_so(r["file"]):
             ok = outcome == "ModuleNotFoundError" or (outcome == "ok" and root is not None and not root["ns"] and so_sibling(r, root["files"][0]))
@@ -169,7 +193,7 @@ def evaluate(ref: PyRef, outcome: str, tree: list) -> dict:
         if outcome != "ok" or root is None:
             ok = False
         elif root["ns"]:
-            ok = root["files"] == r["locs"]
+            ok = non_stubs(root["files"]) == r["locs"]
         else:
             f = root["files"][0]
             ok = is_pyi(f) and is_init(f) and dir_of(f) in r["locs"]
@@ -277,7 +301,7 @@ def group_py(group: dict) -> dict | None:
 
 def check_chunk(args) -> dict:
     """Worker: replay the cases of some layouts on the real code.  Returns plain data for the parent."""
-    groups, find_stubs = args
+    groups, _unused = args
     griffe = ensure_repo()
     res = {"violations": [], "fatal": [], "drift": 0, "drift_examples": [], "replayed": 0, "evaluated": 0, "nontrivial": [],
            "samples": [], "stats": collections.Counter()}
@@ -293,7 +317,7 @@ def check_chunk(args) -> dict:
             rr = []
             extra = set()
             for case in group["cases"]:
-                real = fs.run_griffe(griffe, lay, listing_of(case), request_of(case), find_stubs=find_stubs, flip=flip_of(case))
+                real = fs.run_griffe(griffe, lay, listing_of(case), request_of(case), find_stubs=bool(case.get("stubs")), flip=flip_of(case))
                 rr.append(real)
                 for n in real["tree"]:
                     extra.add(".".join(n["path"]))
@@ -316,7 +340,7 @@ def check_group(res: dict, group: dict, lay: fs.Layout, reals: list, o: dict):
     if pyrec is None:
         res["fatal"].append(f"no canonical case (carrying the reference) for layout {json.dumps(group['layout'])}")
         return
-    ref = PyRef(pyrec)
+    ref = PyRef(pyrec, find_stubs=bool(cases[0].get("stubs")))
     why = compare_oracle(lay, ref, o)
     if why:
         res["fatal"].append(f"spec reference disagrees with CPython on layout {json.dumps(group['layout'])}: {why}")
@@ -357,7 +381,9 @@ def check_group(res: dict, group: dict, lay: fs.Layout, reals: list, o: dict):
         tree = norm_tree(real["tree"])
         ident_case = {"kind": "group", "layout": group["layout"], "case": slim(case), "canon": slim(base[0]) if base else None}   # canon carries `py`
         sigbase = {"fam": fam, "causes": causes, "request": "path" if case["request"].startswith("path") else case["request"]}
-        if outcome not in ("ok", "ModuleNotFoundError"):
+        if outcome.startswith("NotInCollection:"):
+            outcome = "KeyError"          # the package was loaded under another name: load() raised KeyError('pkg')
+        if outcome not in ("ok", "ModuleNotFoundError", "KeyError"):
             res["violations"].append((dict(sigbase, clause="total", predicted=False, as_model=False), f"load raised/ended with {outcome} {real.get('detail', '')} on {ident(case)}", ident_case))
             continue
         as_model = outcome == spec_out and strip(tree) == strip(spec_tree)
@@ -400,7 +426,7 @@ def unroot(text, lay: fs.Layout):
 def slim(case: dict | None) -> dict | None:
     if case is None:
         return None
-    return {k: case[k] for k in ("fam", "files", "pth", "pthform", "request", "iscanon", "listing", "impl", "py", "viol", "causes")}
+    return {k: case[k] for k in ("fam", "stubs", "files", "pth", "pthform", "request", "iscanon", "listing", "impl", "py", "viol", "causes")}
 
 
 def ident(case: dict) -> str:
@@ -441,7 +467,7 @@ def state_to_case(st: dict, fam: str) -> dict:
     for key, ent in (st["listing"].items() if isinstance(st["listing"], dict) else []):
         p = int(re.match(r"<<(\d+)", key).group(1))
         listing.append({"p": p, "d": re.findall(r'"([^"]*)"', key), "files": ent["files"], "dirs": ent["dirs"]})
-    return {"fam": fam, "files": st["files"], "pth": st["pth"], "pthform": st["pthform"], "request": st["request"], "iscanon": False, "listing": listing,
+    return {"fam": fam, "stubs": fam == "stubs", "files": st["files"], "pth": st["pth"], "pthform": st["pthform"], "request": st["request"], "iscanon": False, "listing": listing,
             "impl": {"outcome": st["outcome"], "tree": st["tree"], "spaths": st["spaths"]}, "py": st["py"], "viol": None, "causes": st["causes"]}
 
 
@@ -449,11 +475,13 @@ def replay_counterexample(run: Run, griffe, fam: str, res) -> None:
     """The model predicts a defect in the defect domain: the real code must show it on TLC's counterexample."""
     st = res.trace[-1]
     case = state_to_case(st, fam)
-    ref = PyRef(case["py"])
+    ref = PyRef(case["py"], find_stubs=case["stubs"])
     with scratch("c14ce-") as root:
         lay = fs.Layout(root, layout_of(case))
-        real = fs.run_griffe(griffe, lay, listing_of(case), request_of(case))
-        canon = fs.run_griffe(griffe, lay, {}, "name")
+        real = fs.run_griffe(griffe, lay, listing_of(case), request_of(case), find_stubs=case["stubs"])
+        canon = fs.run_griffe(griffe, lay, {}, "name", find_stubs=case["stubs"])
+        if real["outcome"].startswith("NotInCollection:"):
+            real["outcome"] = "KeyError"
         bad = evaluate(ref, real["outcome"], norm_tree(real["tree"]))
         differs = strip(norm_tree(real["tree"])) != strip(norm_tree(canon["tree"])) and case["request"] == "name"
     if bad or differs:
@@ -466,8 +494,9 @@ def replay_counterexample(run: Run, griffe, fam: str, res) -> None:
 def main(tier: str, replay: str | None = None):
     griffe = ensure_repo()
     run = Run("C14", tier)
-    run.rule = ("Finder.tla: every layout of three families (top: 10/13 kinds of entry for the name in search paths 1,2 x .pth to path 3 in two line forms; "
-                "sub: every set of <=3/4 children out of 15 in a regular package; ns: every pair of sets of <=2/3 children out of 9 in two namespace portions) "
+    run.rule = ("Finder.tla: every layout of four families (top: 9/13 kinds of entry for the name in search paths 1,2 x .pth to path 3 in two line forms; "
+                "sub: every set of <=3/4 children out of 15 in a regular package; ns: every pair of sets of <=2/3 children out of 7/9 in two namespace portions; "
+                "stubs: 4/5 kinds of package x 6 shapes of pkg-stubs in each of two search paths, find_stubs_package=True) "
                 "x every listing order of every directory (files and sub-directories permuted separately) x request forms (name, dotted, path of the directory). "
                 "Non-trivial = case whose loaded tree has >= 2 modules or whose layout has >= 3 files; distinct by (layout, request, listing).")
     totals = {"drift": 0, "drift_examples": [], "stats": collections.Counter()}
@@ -485,59 +514,63 @@ def main(tier: str, replay: str | None = None):
     params = TIERS[tier]
     t0 = time.time()
     jobs = {}
-    nworkers = 4 if tier == "quick" else 5
-    with ThreadPoolExecutor(max_workers=6) as pool:
-        for fam, consts in params.items():
-            jobs["check", fam] = pool.submit(tlc.run, "Finder", "Finder_check.cfg", workers=nworkers, constants=dict(consts, FAMILY=fam), timeout=7000, heap="6g")
-            jobs["defect", fam] = pool.submit(tlc.run, "Finder", "Finder_defect.cfg", workers=1, constants=dict(consts, FAMILY=fam), timeout=7000, dump_trace=True)
-        results = {k: f.result() for k, f in jobs.items()}
-    print(f"TLC done in {time.time() - t0:.0f}s", flush=True)
+    nworkers = 3 if tier == "quick" else 4
+    nproc = 6 if tier == "quick" else 8
     rnd = random.Random(SEED)
     run.exhaustive = True
-    all_groups = []
-    for fam in params:
-        res = results["check", fam]
-        if res.violated:
-            print(res.tail)
-            die(f"C14: Finder.tla violates {res.violated} in the clean domain of family {fam}: the model or a cause predicate is wrong")
-        tlc.must(res)
-        run.add_tlc(res)
-        groups = group_cases(res.cases)
-        seen_causes = {c for g in groups for c in g["cases"][0]["causes"]}
-        expected = EXPECTED_CAUSES[fam] - ({"init-pyi-is-package"} if (fam, tier) == ("ns", "quick") else set())
-        if not expected <= seen_causes:
-            die(f"C14: family {fam} no longer reaches the cause classes {sorted(expected - seen_causes)} (vacuous)")
-        if not any(not g["cases"][0]["causes"] for g in groups):
-            die(f"C14: family {fam} has no clean layout (vacuous)")
-        cap = 1 << 30 if tier == "quick" else 90000
-        ncases = sum(len(g["cases"]) for g in groups)
-        if ncases > cap:
-            # keep every layout; per layout keep the canonical case, every non-"name" request and a seeded sample of listings
-            keep = max(2, cap // max(1, len(groups)))
-            for g in groups:
-                fixed = [c for c in g["cases"] if c["iscanon"] or c["request"] != "name"]
-                rest = [c for c in g["cases"] if not (c["iscanon"] or c["request"] != "name")]
-                g["cases"] = fixed + (rest if len(rest) <= keep else rnd.sample(rest, keep))
-            run.exhaustive = False
-            run.note(f"family {fam}: {ncases} cases enumerated; replayed every layout with all request forms and <= {keep} sampled non-canonical listings each ({sum(len(g['cases']) for g in groups)} cases)")
-        all_groups += groups
-        dres = results["defect", fam]
-        tlc.must(dres, allow_violations=True)
-        run.add_tlc(dres)
-        if "NoViolationAnywhere" not in dres.violated or not dres.trace:
-            die(f"C14: the defect domain of family {fam} no longer violates any clause in the model (violated={dres.violated}): recorded defects are not exhibited")
-        if [v for v in dres.violated if v != "NoViolationAnywhere"]:
-            die(f"C14: defect run of family {fam} violates {dres.violated}")
-        replay_counterexample(run, griffe, fam, dres)
-    # replay on the real code, in parallel worker processes
-    all_groups.sort(key=lambda g: json.dumps(g["layout"], sort_keys=True))
-    rnd.shuffle(all_groups)
-    nproc = 6 if tier == "quick" else 8
-    size = max(20, min(400, len(all_groups) // (nproc * 3) + 1))
-    chunks = [(all_groups[i:i + size], False) for i in range(0, len(all_groups), size)]
-    with ProcessPoolExecutor(max_workers=nproc, mp_context=get_context("fork")) as pool:
-        for res in pool.map(check_chunk, chunks):
-            merge(run, res, totals)
+    order = sorted(params, key=lambda f: ("stubs", "top", "sub", "ns").index(f))
+    with ThreadPoolExecutor(max_workers=2 * len(params)) as pool:
+        for fam in order:
+            consts = params[fam]
+            jobs["check", fam] = pool.submit(tlc.run, "Finder", "Finder_check.cfg", workers=nworkers, constants=dict(consts, FAMILY=fam), timeout=7000, heap="2g")
+            jobs["defect", fam] = pool.submit(tlc.run, "Finder", "Finder_defect.cfg", workers=1, constants=dict(consts, FAMILY=fam), timeout=7000, heap="1g", dump_trace=True)
+        # families are replayed one after the other, as soon as their TLC run is over (smallest first)
+        for fam in order:
+            res = jobs["check", fam].result()
+            print(f"TLC {fam}: {res.generated} states generated, {res.distinct} distinct, {len(res.cases)} cases, {res.wall_s:.0f}s (t+{time.time() - t0:.0f}s)", flush=True)
+            if res.violated:
+                print(res.tail)
+                die(f"C14: Finder.tla violates {res.violated} in the clean domain of family {fam}: the model or a cause predicate is wrong")
+            tlc.must(res)
+            run.add_tlc(res)
+            groups = group_cases(res.cases)
+            res.cases = []
+            seen_causes = {c for g in groups for c in g["cases"][0]["causes"]}
+            expected = EXPECTED_CAUSES[fam]
+            if not expected <= seen_causes:
+                die(f"C14: family {fam} no longer reaches the cause classes {sorted(expected - seen_causes)} (vacuous)")
+            if not any(not g["cases"][0]["causes"] for g in groups):
+                die(f"C14: family {fam} has no clean layout (vacuous)")
+            cap = 1 << 30 if tier == "quick" else 90000
+            ncases = sum(len(g["cases"]) for g in groups)
+            if ncases > cap:
+                # keep every layout; per layout keep the canonical case, every non-"name" request and a seeded sample of listings
+                keep = max(2, cap // max(1, len(groups)))
+                for g in groups:
+                    fixed = [c for c in g["cases"] if c["iscanon"] or c["request"] != "name"]
+                    rest = [c for c in g["cases"] if not (c["iscanon"] or c["request"] != "name")]
+                    g["cases"] = fixed + (rest if len(rest) <= keep else rnd.sample(rest, keep))
+                run.exhaustive = False
+                run.note(f"family {fam}: {ncases} cases enumerated; replayed every layout with all request forms and <= {keep} sampled non-canonical listings each ({sum(len(g['cases']) for g in groups)} cases)")
+            dres = jobs["defect", fam].result()
+            tlc.must(dres, allow_violations=True)
+            run.add_tlc(dres)
+            if "NoViolationAnywhere" not in dres.violated or not dres.trace:
+                die(f"C14: the defect domain of family {fam} no longer violates any clause in the model (violated={dres.violated}): recorded defects are not exhibited")
+            if [v for v in dres.violated if v != "NoViolationAnywhere"]:
+                die(f"C14: defect run of family {fam} violates {dres.violated}")
+            replay_counterexample(run, griffe, fam, dres)
+            # replay on the real code, in parallel worker processes
+            groups.sort(key=lambda g: json.dumps(g["layout"], sort_keys=True))
+            rnd.shuffle(groups)
+            size = max(20, min(300, len(groups) // (nproc * 3) + 1))
+            chunks = [(groups[i:i + size], False) for i in range(0, len(groups), size)]
+            del groups
+            with ProcessPoolExecutor(max_workers=nproc, mp_context=get_context("fork")) as procs:
+                for out in procs.map(check_chunk, chunks):
+                    merge(run, out, totals)
+            del chunks
+            print(f"replayed {fam} (t+{time.time() - t0:.0f}s)", flush=True)
     st = totals["stats"]
     run.extra["stats"] = dict(st)
     run.extra["drift"] = totals["drift"]
